@@ -4,6 +4,7 @@ pub mod gen;
 pub mod known;
 pub mod obs;
 pub mod props;
+pub mod refcmp;
 pub mod refmodel;
 pub mod runner;
 pub mod tol;
